@@ -152,6 +152,57 @@ def apply_method_min(text, counts):
         i = j + 5
 
 
+def _receiver_start(text, k):
+    """start index of the maximal postfix-chain receiver that ends at position k (exclusive)"""
+    j = k
+    while j > 0:
+        ch = text[j - 1]
+        if ch.isalnum() or ch == '_' or ch == '.':
+            j -= 1
+        elif ch == ':' and j > 1 and text[j - 2] == ':':
+            j -= 2
+        elif ch in ')]>':
+            op = {')': '(', ']': '[', '>': '<'}[ch]
+            depth, q = 0, j - 1
+            while q >= 0:
+                if text[q] == ch:
+                    depth += 1
+                elif text[q] == op:
+                    depth -= 1
+                    if depth == 0:
+                        break
+                q -= 1
+            if q < 0:
+                break
+            j = q
+        elif ch.isspace() and j > 1 and text[:j].rstrip().endswith(')') and text[j:k].lstrip().startswith('.'):
+            j -= 1   # method chains broken over several lines
+        else:
+            break
+    return j
+
+
+def apply_unwrap_guard(text, counts):
+    """R3u: RECEIVER.unwrap() -> result_unwrap_guard(RECEIVER)"""
+    i = 0
+    while True:
+        m = rsx.mask(text)
+        k = text.find('.unwrap()', i)
+        if k < 0:
+            return text
+        if m[k] != 'c':
+            i = k + 1
+            continue
+        j = _receiver_start(text, k)
+        recv = text[j:k]
+        if not recv.strip():
+            i = k + 1
+            continue
+        text = text[:j] + 'result_unwrap_guard(' + recv.strip() + ')' + text[k + len('.unwrap()'):]
+        counts['R3u'] = counts.get('R3u', 0) + 1
+        i = j + 5
+
+
 def apply_temp_guard(text, counts):
     """R14: Rust drops a temporary at the end of the enclosing statement.  In
         let p = X.ptr_guard[_mut]().as_ptr()...;
@@ -586,6 +637,10 @@ class Unit:
             gexpr = opts['asserts'][len('guardif:'):]
             body, ng = re.subn(r'\bvassert\(', 'vguardif(Ghost(%s), ' % gexpr, body)
             self.rewrites['R3g'] = self.rewrites.get('R3g', 0) + ng
+        if opts.get('unwraps') == 'guard':
+            # R3u: `.unwrap()` as the function's documented refusal (a panic before anything is handed out):
+            # control continues only with the Ok / Some value, no panic-freedom obligation
+            body = apply_unwrap_guard(body, self.rewrites)
         if opts.get('asserts') == 'guard':
             # the function's own assert!s are its documented bound check (panic = safe refusal):
             # model them as `returns only if cond` instead of as a panic-freedom obligation, so the
